@@ -1744,7 +1744,10 @@ impl TestTextSelection for TextSelection {
         //note: at this level we deal with two singletons and there is no different between the *All variants
         match operator {
             TextSelectionOperator::Equals { negate: false, .. }
-            | TextSelectionOperator::InSet { negate: false, .. } => self == reftextsel,
+            | TextSelectionOperator::InSet { negate: false, .. } => {
+                //(the same range; whether either side carries a handle has no part in it)
+                self.begin == reftextsel.begin && self.end == reftextsel.end
+            }
             TextSelectionOperator::Overlaps { negate: false, .. } => {
                 //item must be equal overlap with any of the items in the other set
                 (reftextsel.begin >= self.begin && reftextsel.begin < self.end)
